@@ -219,6 +219,8 @@ package completion
 //@   requires evalid(e)
 //@   assigns *e.line, e.cursor.pos, e.cursor.mark, e.sm
 //@   ensures [no-matcher-no-edit] old(len(e.sm.string)) == 0 ==> *e.line == old(*e.line) && e.cursor.pos == old(e.cursor.pos)
+//@   ensures @C14 [elsewhere-no-edit] old(e.sm.pos) != old(e.cursor.pos) - 1 ==> *e.line == old(*e.line) && e.cursor.pos == old(e.cursor.pos)
+//@   ensures @C14 [orphan-dropped] old(len(*e.line)) > 0 && old(e.cursor.pos) > 0 && old(len(e.selected.Value)) == 0 && old(e.sm.pos) != old(e.cursor.pos) - 1 ==> len(e.sm.string) == 0
 
 //@ func (*Engine).NonIncrementallySearching
 //@   props C02 C01
